@@ -934,4 +934,397 @@ theorem run_append (st : State) (vs : List (List Cfg)) (v : List Cfg) :
     run st (vs ++ [v]) = reload (run st vs) v := by
   simp [run, List.foldl_append]
 
+/-! ### the watcher that runs a given section after a reload -/
+
+theorem reload_outcome (st : State) (new : List Cfg) (hs : (st.ws.map (·.name)).Nodup)
+    (hn : (new.map (·.name)).Nodup) (c : Cfg) (hc : c ∈ new) :
+    ∃ w' ∈ (reload st new).ws, Outcome st c w' := by
+  obtain ⟨w', hw', he⟩ := reload_complete st new hs hn c hc
+  obtain ⟨c0, hc0, ho⟩ := reload_mem st new hn w' hw'
+  have : c0 = c := eq_of_nodup_map (·.name) new hn c0 c hc0 hc (ho.name.symm.trans he)
+  subst this
+  exact ⟨w', hw', ho⟩
+
+/-- the unchanged case of `Outcome` -/
+theorem reload_keeps (st : State) (new : List Cfg) (hs : (st.ws.map (·.name)).Nodup)
+    (hn : (new.map (·.name)).Nodup) (w : W) (hw : w ∈ st.ws) (c : Cfg) (hc : c ∈ new)
+    (he : w.name = c.name) (hd : (diffOf c w).isEmpty = true) : w ∈ (reload st new).ws := by
+  obtain ⟨w', hw', ho⟩ := reload_outcome st new hs hn c hc
+  rcases ho with ⟨hno, _⟩ | ⟨w0, hw0, hn0, h⟩
+  · exact absurd he (hno w hw)
+  · have : w0 = w := eq_of_nodup_map (·.name) st.ws hs w0 w hw0 hw (hn0.trans he.symm)
+    subst this
+    rcases h with h | h | h
+    · rw [← h.2]; exact hw'
+    · rw [not_isEmpty_of_isNpOnly c w0 h.1] at hd; cases hd
+    · rw [h.1] at hd; cases hd
+
+/-- the numprocesses-only case of `Outcome` -/
+theorem reload_resizes (st : State) (new : List Cfg) (hs : (st.ws.map (·.name)).Nodup)
+    (hn : (new.map (·.name)).Nodup) (w : W) (hw : w ∈ st.ws) (c : Cfg) (hc : c ∈ new)
+    (he : w.name = c.name) (hd : (diffOf c w).isNpOnly = true) :
+    ∃ k, st.next ≤ k ∧ resize c w k ∈ (reload st new).ws := by
+  obtain ⟨w', hw', ho⟩ := reload_outcome st new hs hn c hc
+  rcases ho with ⟨hno, _⟩ | ⟨w0, hw0, hn0, h⟩
+  · exact absurd he (hno w hw)
+  · have : w0 = w := eq_of_nodup_map (·.name) st.ws hs w0 w hw0 hw (hn0.trans he.symm)
+    subst this
+    rcases h with h | h | h
+    · rw [not_isEmpty_of_isNpOnly c w0 hd] at h; cases h.1
+    · obtain ⟨_, k, hk, rfl⟩ := h; exact ⟨k, hk, hw'⟩
+    · rw [h.2.1] at hd; cases hd
+
+/-- the replaced / added cases of `Outcome` -/
+theorem reload_replaces (st : State) (new : List Cfg) (hs : (st.ws.map (·.name)).Nodup)
+    (hn : (new.map (·.name)).Nodup) (c : Cfg) (hc : c ∈ new)
+    (hd : ∀ w ∈ st.ws, w.name = c.name → (diffOf c w).isEmpty = false ∧ (diffOf c w).isNpOnly = false) :
+    ∃ k, st.next ≤ k ∧ fresh c k ∈ (reload st new).ws := by
+  obtain ⟨w', hw', ho⟩ := reload_outcome st new hs hn c hc
+  rcases ho with ⟨_, k, hk, rfl⟩ | ⟨w0, hw0, hn0, h⟩
+  · exact ⟨k, hk, hw'⟩
+  · obtain ⟨h1, h2⟩ := hd w0 hw0 hn0
+    rcases h with h | h | h
+    · rw [h1] at h; cases h.1
+    · rw [h2] at h; cases h.1
+    · obtain ⟨_, _, k, hk, rfl⟩ := h; exact ⟨k, hk, hw'⟩
+
+theorem mem_unique_of_name (st : State) (hs : (st.ws.map (·.name)).Nodup) (a b : W) (ha : a ∈ st.ws)
+    (hb : b ∈ st.ws) (h : a.name = b.name) : a = b := eq_of_nodup_map (·.name) st.ws hs a b ha hb h
+
+/-! ### raising and lowering numprocesses -/
+
+theorem resize_prefix (c : Cfg) (w : W) (k : Nat) (h : w.pids.length ≤ c.np.toNat) :
+    w.pids <+: (resize c w k).pids := by
+  rw [resize_pids]
+  split
+  · exact List.prefix_refl _
+  · split
+    · split
+      · exact List.prefix_append _ _
+      · exact List.prefix_refl _
+    · have : w.pids.length - c.np.toNat = 0 := by omega
+      rw [this]; exact List.prefix_refl _
+
+theorem resize_suffix (c : Cfg) (w : W) (k : Nat) (h : c.np.toNat ≤ w.pids.length) :
+    (resize c w k).pids <:+ w.pids := by
+  rw [resize_pids]
+  split
+  · exact List.suffix_refl _
+  · split
+    · omega
+    · exact List.drop_suffix _ _
+
+theorem resize_length (c : Cfg) (w : W) (k : Nat) (ha : w.active = true) (hr : w.respawn = true) :
+    (resize c w k).pids.length = c.np.toNat := by
+  rw [resize_pids]
+  simp only [ha, Bool.true_eq_false, if_false, hr, if_true]
+  split
+  · simp; omega
+  · simp; omega
+
+/-! ### pids: every pid belongs to one watcher only and lies below the kernel's next pid -/
+
+def PGood (ws : List W) (nx : Nat) : Prop :=
+  (∀ w ∈ ws, ∀ p ∈ w.pids, p < nx) ∧ ws.Pairwise (fun a b => ∀ p ∈ a.pids, p ∉ b.pids) ∧
+    ∀ w ∈ ws, w.pids.Nodup
+
+theorem setNp_next (w : W) (n : Int) (k : Nat) :
+    (setNp w n k).2 =
+      if w.active = false then k
+      else if w.pids.length < n.toNat then (if w.respawn = true then k + (n.toNat - w.pids.length) else k)
+      else k := by
+  unfold setNp
+  simp only [manage_spec]
+  have hr : W.respawn { w with np := n.toNat } = w.respawn := rfl
+  simp only [hr]
+  cases ha : w.active with
+  | false => simp
+  | true =>
+    by_cases h1 : w.pids.length < n.toNat
+    · cases hrr : w.respawn with
+      | true => simp [h1]
+      | false =>
+        simp only [h1, if_true, Bool.true_eq_false, Bool.false_eq_true, if_false]
+        split <;> rfl
+    · simp only [h1, if_false, Bool.true_eq_false]
+      split <;> rfl
+
+theorem resize_pids_spec (c : Cfg) (w : W) (k : Nat) (hb : ∀ p ∈ w.pids, p < k) (hnd : w.pids.Nodup) :
+    (resize c w k).pids.Nodup ∧
+      ∀ p ∈ (resize c w k).pids, (p ∈ w.pids ∨ k ≤ p) ∧ p < (setNp w c.np k).2 := by
+  rw [resize_pids, setNp_next]
+  cases ha : w.active with
+  | false =>
+    simp only [if_true]
+    exact ⟨hnd, fun p hp => ⟨Or.inl hp, hb p hp⟩⟩
+  | true =>
+    simp only [Bool.true_eq_false, if_false]
+    by_cases h1 : w.pids.length < c.np.toNat
+    · simp only [h1, if_true]
+      cases hr : w.respawn with
+      | false =>
+        simp only [Bool.false_eq_true, if_false]
+        exact ⟨hnd, fun p hp => ⟨Or.inl hp, hb p hp⟩⟩
+      | true =>
+        simp only [if_true]
+        refine ⟨?_, ?_⟩
+        · rw [List.nodup_append]
+          refine ⟨hnd, List.nodup_range' (step := 1), ?_⟩
+          intro a ha' b hb' hab
+          subst hab
+          have := hb a ha'
+          have := (List.mem_range'_1.1 hb').1
+          omega
+        · intro p hp
+          rcases List.mem_append.1 hp with h | h
+          · exact ⟨Or.inl h, by have := hb p h; omega⟩
+          · have := List.mem_range'_1.1 h
+            exact ⟨Or.inr this.1, this.2⟩
+    · simp only [h1, if_false]
+      exact ⟨hnd.sublist (List.drop_sublist _ _),
+        fun p hp => ⟨Or.inl (List.mem_of_mem_drop hp), hb p (List.mem_of_mem_drop hp)⟩⟩
+
+theorem stepW_pids_spec (new : List Cfg) (maybe : List Str) (w : W) (k : Nat)
+    (hb : ∀ p ∈ w.pids, p < k) (hnd : w.pids.Nodup) :
+    (stepW new maybe w k).pids.Nodup ∧
+      ∀ p ∈ (stepW new maybe w k).pids, (p ∈ w.pids ∨ k ≤ p) ∧ p < stepNext new maybe w k := by
+  unfold stepW stepNext
+  cases hit new maybe w with
+  | none => exact ⟨hnd, fun p hp => ⟨Or.inl hp, hb p hp⟩⟩
+  | some c =>
+    simp only [changedStep_eq]
+    split
+    · exact resize_pids_spec c w k hb hnd
+    · exact ⟨hnd, fun p hp => ⟨Or.inl hp, hb p hp⟩⟩
+
+theorem changedLoop_good (new : List Cfg) (maybe : List Str) (ws : List W) (nx : Nat) (h : PGood ws nx) :
+    PGood (changedLoop new maybe ws nx).1 (changedLoop new maybe ws nx).2.2 ∧
+      ∀ w' ∈ (changedLoop new maybe ws nx).1, ∀ p ∈ w'.pids, (∃ w ∈ ws, p ∈ w.pids) ∨ nx ≤ p := by
+  induction ws generalizing nx with
+  | nil =>
+    refine ⟨⟨?_, ?_, ?_⟩, ?_⟩ <;> simp [changedLoop]
+  | cons w r ih =>
+    obtain ⟨hb, hp, hnd⟩ := h
+    have hle := stepNext_le new maybe w nx
+    have hr : PGood r (stepNext new maybe w nx) :=
+      ⟨fun w0 hw0 p hp0 => Nat.lt_of_lt_of_le (hb w0 (List.mem_cons_of_mem _ hw0) p hp0) hle,
+       (List.pairwise_cons.1 hp).2, fun w0 hw0 => hnd w0 (List.mem_cons_of_mem _ hw0)⟩
+    obtain ⟨⟨tb, tp, tnd⟩, tsrc⟩ := ih _ hr
+    obtain ⟨hnd', hsp⟩ := stepW_pids_spec new maybe w nx (hb w List.mem_cons_self) (hnd w List.mem_cons_self)
+    have hle2 := changedLoop_next new maybe r (stepNext new maybe w nx)
+    rw [changedLoop_cons]
+    refine ⟨⟨?_, ?_, ?_⟩, ?_⟩
+    · intro w' hw' p hp'
+      rcases List.mem_cons.1 hw' with rfl | hw'
+      · exact Nat.lt_of_lt_of_le (hsp p hp').2 hle2
+      · exact tb w' hw' p hp'
+    · rw [List.pairwise_cons]
+      refine ⟨?_, tp⟩
+      intro b hb' p hp' hpb
+      have h1 := hsp p hp'
+      rcases tsrc b hb' p hpb with ⟨w0, hw0, hpw0⟩ | hge
+      · rcases h1.1 with h2 | h2
+        · exact (List.pairwise_cons.1 hp).1 w0 hw0 p h2 hpw0
+        · have := hb w0 (List.mem_cons_of_mem _ hw0) p hpw0
+          omega
+      · have := h1.2; omega
+    · intro w' hw'
+      rcases List.mem_cons.1 hw' with rfl | hw'
+      · exact hnd'
+      · exact tnd w' hw'
+    · intro w' hw' p hp'
+      rcases List.mem_cons.1 hw' with rfl | hw'
+      · rcases (hsp p hp').1 with h2 | h2
+        · exact Or.inl ⟨w, List.mem_cons_self, h2⟩
+        · exact Or.inr h2
+      · rcases tsrc w' hw' p hp' with ⟨w0, hw0, hpw0⟩ | hge
+        · exact Or.inl ⟨w0, List.mem_cons_of_mem _ hw0, hpw0⟩
+        · exact Or.inr (Nat.le_trans hle hge)
+
+theorem startW_next_fresh (c : Cfg) (k : Nat) :
+    ∀ p ∈ (fresh c k).pids, k ≤ p ∧ p < (startW (mkWatcher c) k).2 := by
+  intro p hp
+  have hge := fresh_pids_ge c k p hp
+  refine ⟨hge, ?_⟩
+  rw [fresh_pids] at hp
+  split at hp
+  · rename_i ha
+    have hm := List.mem_range'_1.1 hp
+    unfold startW mkWatcher W.autostart
+    simp only [ha, Bool.not_true, Bool.false_eq_true, if_false, List.length_nil, Nat.sub_zero,
+      List.nil_append, List.range'_eq_nil_iff]
+    split
+    · omega
+    · exact hm.2
+  · cases hp
+
+theorem fresh_pids_nodup (c : Cfg) (k : Nat) : (fresh c k).pids.Nodup := by
+  rw [fresh_pids]
+  split
+  · exact List.nodup_range' (step := 1)
+  · exact List.nodup_nil
+
+theorem addLoop_good (cs : List Cfg) (nx : Nat) :
+    PGood (addLoop cs nx).1 (addLoop cs nx).2 ∧ ∀ w' ∈ (addLoop cs nx).1, ∀ p ∈ w'.pids, nx ≤ p := by
+  induction cs generalizing nx with
+  | nil => refine ⟨⟨?_, ?_, ?_⟩, ?_⟩ <;> simp [addLoop]
+  | cons c r ih =>
+    obtain ⟨⟨tb, tp, tnd⟩, tge⟩ := ih (startW (mkWatcher c) nx).2
+    have hle := startW_next (mkWatcher c) nx
+    have hle2 := addLoop_next r (startW (mkWatcher c) nx).2
+    have hf := startW_next_fresh c nx
+    simp only [addLoop]
+    refine ⟨⟨?_, ?_, ?_⟩, ?_⟩
+    · intro w' hw' p hp'
+      rcases List.mem_cons.1 hw' with rfl | hw'
+      · exact Nat.lt_of_lt_of_le (hf p hp').2 hle2
+      · exact tb w' hw' p hp'
+    · rw [List.pairwise_cons]
+      refine ⟨?_, tp⟩
+      intro b hb' p hp' hpb
+      have := (hf p hp').2
+      have := tge b hb' p hpb
+      omega
+    · intro w' hw'
+      rcases List.mem_cons.1 hw' with rfl | hw'
+      · exact fresh_pids_nodup c nx
+      · exact tnd w' hw'
+    · intro w' hw' p hp'
+      rcases List.mem_cons.1 hw' with rfl | hw'
+      · exact (hf p hp').1
+      · exact Nat.le_trans hle (tge w' hw' p hp')
+
+/-- the pid invariant of a daemon state -/
+def PidInv (st : State) : Prop := PGood st.ws st.next
+
+theorem PidInv.reload {st : State} (h : PidInv st) (new : List Cfg) : PidInv (reload st new) := by
+  obtain ⟨⟨cb, cp, cnd⟩, _⟩ := changedLoop_good new (maybeOf st new) st.ws st.next h
+  unfold PidInv
+  rw [reload_ws, reload_next]
+  generalize (new.filter (fun c => decide (c.name ∈
+        (new.map (·.name)).filter (fun n => decide (n ∉ st.ws.map (·.name))) ++ changedOf st new))) = cs
+  obtain ⟨⟨ab, ap, and_⟩, age⟩ := addLoop_good cs (changedLoop new (maybeOf st new) st.ws st.next).2.2
+  have hle := addLoop_next cs (changedLoop new (maybeOf st new) st.ws st.next).2.2
+  refine ⟨?_, ?_, ?_⟩
+  · intro w' hw' p hp'
+    rcases List.mem_append.1 hw' with hw' | hw'
+    · exact Nat.lt_of_lt_of_le (cb w' (List.mem_filter.1 hw').1 p hp') hle
+    · exact ab w' hw' p hp'
+  · rw [List.pairwise_append]
+    refine ⟨cp.sublist List.filter_sublist, ap, ?_⟩
+    intro a ha b hb p hpa hpb
+    have := cb a (List.mem_filter.1 ha).1 p hpa
+    have := age b hb p hpb
+    omega
+  · intro w' hw'
+    rcases List.mem_append.1 hw' with hw' | hw'
+    · exact cnd w' (List.mem_filter.1 hw').1
+    · exact and_ w' hw'
+
+theorem PidInv.freshStart (v : List Cfg) (nx : Nat) : PidInv (freshStart v nx) :=
+  (addLoop_good v nx).1
+
+theorem PidInv.run {st : State} (h : PidInv st) (vs : List (List Cfg)) : PidInv (run st vs) := by
+  induction vs generalizing st with
+  | nil => exact h
+  | cons v r ih => exact ih (h.reload v)
+
+/-- two different watchers share no pid -/
+theorem PidInv.disjoint {st : State} (h : PidInv st) (a b : W) (ha : a ∈ st.ws) (hb : b ∈ st.ws)
+    (hne : a.name ≠ b.name) : ∀ p ∈ a.pids, p ∉ b.pids := by
+  have hp := h.2.1
+  generalize st.ws = l at ha hb hp
+  induction l with
+  | nil => cases ha
+  | cons x r ih =>
+    rw [List.pairwise_cons] at hp
+    rcases List.mem_cons.1 ha with rfl | ha' <;> rcases List.mem_cons.1 hb with hb' | hb'
+    · exact absurd (by rw [hb']) hne
+    · exact hp.1 b hb'
+    · subst hb'
+      intro p hpa hpb
+      exact hp.1 a ha' p hpb hpa
+    · exact ih ha' hb' hp.2
+
+/-! ### watchers whose workers are all there -/
+
+/-- the watcher respawns, and runs `numprocesses` workers if it starts by itself, none otherwise -/
+def Healthy (w : W) : Prop :=
+  w.respawn = true ∧ (w.autostart = true → w.active = true ∧ w.pids.length = w.np) ∧
+    (w.autostart = false → w.active = false ∧ w.pids = [])
+
+/-- the section keeps `respawn` on and, if the watcher starts by itself, asks for at least one worker -/
+def GoodCfg (c : Cfg) : Prop :=
+  flag c (cp! "respawn") = true ∧ (flag c (cp! "autostart") = true → 1 ≤ c.np)
+
+theorem healthy_fresh (c : Cfg) (k : Nat) (h : GoodCfg c) : Healthy (fresh c k) := by
+  refine ⟨?_, ?_, ?_⟩
+  · show flag (fresh c k).cfg _ = true
+    rw [fresh_cfg]; exact h.1
+  · intro ha
+    have ha' : flag c (cp! "autostart") = true := by
+      have : flag (fresh c k).cfg (cp! "autostart") = true := ha
+      rwa [fresh_cfg] at this
+    have hnp := h.2 ha'
+    rw [fresh_active, fresh_pids, fresh_np]
+    simp only [ha', Bool.true_and, if_true, List.length_range', decide_eq_true_eq]
+    exact ⟨by omega, trivial⟩
+  · intro ha
+    have ha' : flag c (cp! "autostart") = false := by
+      have : flag (fresh c k).cfg (cp! "autostart") = false := ha
+      rwa [fresh_cfg] at this
+    rw [fresh_active, fresh_pids]
+    simp [ha']
+
+theorem resize_respawn (c : Cfg) (w : W) (k : Nat) : (resize c w k).respawn = w.respawn := by
+  unfold W.respawn flag
+  rw [resize_cfg]
+
+theorem resize_autostart (c : Cfg) (w : W) (k : Nat) : (resize c w k).autostart = w.autostart := by
+  unfold W.autostart flag
+  rw [resize_cfg]
+
+theorem healthy_resize (c : Cfg) (w : W) (k : Nat) (h : Healthy w) : Healthy (resize c w k) := by
+  obtain ⟨hr, h1, h2⟩ := h
+  refine ⟨by rw [resize_respawn]; exact hr, ?_, ?_⟩
+  · intro ha
+    rw [resize_autostart] at ha
+    obtain ⟨hact, _⟩ := h1 ha
+    exact ⟨by rw [resize_active c w k hr]; exact hact, by rw [resize_length c w k hact hr, resize_np]⟩
+  · intro ha
+    rw [resize_autostart] at ha
+    obtain ⟨hact, hp⟩ := h2 ha
+    refine ⟨by rw [resize_active c w k hr]; exact hact, ?_⟩
+    rw [resize_pids]
+    simp [hact, hp]
+
+theorem healthy_reload (st : State) (new : List Cfg) (hn : (new.map (·.name)).Nodup)
+    (hh : ∀ w ∈ st.ws, Healthy w) (hg : ∀ c ∈ new, GoodCfg c) :
+    ∀ w ∈ (reload st new).ws, Healthy w := by
+  intro w' hw'
+  obtain ⟨c, hc, ho⟩ := reload_mem st new hn w' hw'
+  rcases ho with ⟨_, k, _, rfl⟩ | ⟨w, hw, _, h | h | h⟩
+  · exact healthy_fresh c k (hg c hc)
+  · rw [h.2]; exact hh w hw
+  · obtain ⟨_, k, _, rfl⟩ := h; exact healthy_resize c w k (hh w hw)
+  · obtain ⟨_, _, k, _, rfl⟩ := h; exact healthy_fresh c k (hg c hc)
+
+theorem healthy_freshStart (v : List Cfg) (nx : Nat) (hg : ∀ c ∈ v, GoodCfg c) :
+    ∀ w ∈ (freshStart v nx).ws, Healthy w := by
+  intro w' hw'
+  obtain ⟨c, hc, k, _, rfl⟩ := addLoop_mem v nx w' hw'
+  exact healthy_fresh c k (hg c hc)
+
+/-- `flag` only looks at the dict: equal dicts give equal flags -/
+theorem flag_congr (a b : Cfg) (h : OptsEq a.opts b.opts) (k : Str) : flag a k = flag b k := by
+  unfold flag; rw [h k]
+
+theorem healthy_run (st : State) (vs : List (List Cfg)) (hh : ∀ w ∈ st.ws, Healthy w) (hn : AllNodup vs)
+    (hg : ∀ x ∈ vs, ∀ c ∈ x, GoodCfg c) : ∀ w ∈ (run st vs).ws, Healthy w := by
+  induction vs generalizing st with
+  | nil => exact hh
+  | cons x r ih =>
+    exact ih (reload st x) (healthy_reload st x (hn x List.mem_cons_self) hh (hg x List.mem_cons_self))
+      (fun y hy => hn y (List.mem_cons_of_mem _ hy)) (fun y hy => hg y (List.mem_cons_of_mem _ hy))
+
 end Circus.Reload
